@@ -161,3 +161,15 @@ CASES += [
          old="      const int  ignore_leading_dashes = (arg_spec[ 0] != StartChar) ? 0\n         : 1 + static_cast< int>( arg_spec[ 1] == StartChar);",
          new="      int  ignore_leading_dashes = 0;\n      if (arg_spec[ 0] == StartChar)\n      {\n         ignore_leading_dashes = 1;\n         if (arg_spec[ 1] == StartChar)\n            ignore_leading_dashes = 2;\n      } // end if"),
 ]
+
+CASES += [
+    dict(id='c05-orig-subgroup-ambiguity-preempts-exact', prop='C05', file=H, expect='R5',
+         old="   auto  p_arg_hdl = (mArguments.findExactArg( key) != nullptr) ? nullptr\n      : mSubGroupArgs.findArg( key);",
+         new="   auto  p_arg_hdl = mSubGroupArgs.findArg( key);"),
+    dict(id='c05-eq-exact-first-if-form', prop='C05', file=H, expect=None,
+         old="   auto  p_arg_hdl = (mArguments.findExactArg( key) != nullptr) ? nullptr\n      : mSubGroupArgs.findArg( key);",
+         new="   detail::TypedArgBase*  p_arg_hdl = nullptr;\n   if (mArguments.findExactArg( key) == nullptr)\n      p_arg_hdl = mSubGroupArgs.findArg( key);"),
+    dict(id='c05-cross-abbreviation-not-ambiguous', prop='C05', file=H, expect='R5',
+         old="         if (!(other->key() == key))\n            throw runtime_error( \"Long argument abbreviation '\"\n                                 + format::toString( key)\n                                 + \"' matches more than one argument\");\n         p_arg_hdl = nullptr;",
+         new="         p_arg_hdl = nullptr;"),
+]
